@@ -968,7 +968,7 @@ static bool remove_at(qvector_t *vector, int index) {
     void *src = (unsigned char *)vector->data + (index + 1) * vector->objsize;
     void *dst = (unsigned char *)vector->data + index * vector->objsize;
     int size = (vector->num - (index + 1)) * vector->objsize;
-    memcpy(dst, src, size);
+    memmove(dst, src, size);
 
     return true;
 }
